@@ -130,6 +130,51 @@ for tag in ('f32',):
                 contracts.append((name, 'glm/detail/_swizzle.hpp  writable swizzle v.%s = w ... on vec<%d,%s>' % (pats[0], Ls, T),
                                   dict(ensures=ens, build='swzwrite_%s_%d' % (tag, Ls), tier='quick')))
 
+# ---------------------------------------------------------------------------- writable swizzles: compound assignment and aliased right-hand sides
+# _swizzle_base2::_apply_op serves =, +=, -=, *=, /= and documents that the right-hand side may be the swizzle's own parent ("Make a copy of the data
+# in this == &that"): `v.zyx = v` must read all of the OLD v before writing (seed C17_3 fused the copy loop into the write loop).  Statement: "assigning
+# through a writable swizzle changes exactly the named components" - with the named component pat[i] receiving (old value op) source component i.
+OPS = (('assign', '=', None), ('add', '+=', '+'), ('sub', '-=', '-'), ('mul', '*=', '*'), ('div', '/=', '/'))
+for tag in ('f32',):
+    T = cpp_type(tag)
+    for Ls in (2, 3, 4):
+        d = P.driver('c17_swzop_%s_%d' % (tag, Ls), ['<glm/glm.hpp>'])
+        P.build(d, 'flat', defines=IMPL['oper']['defines'], flags=IMPL['oper']['flags'], tag='swzop_%s_%d' % (tag, Ls))
+        L = LETTERS['xyzw']
+        for Lo in range(2, Ls + 1):
+            pats = [''.join(p_) for p_ in itertools.permutations(L[:Ls], Lo)]
+            if ASSIGNABLE is not None:
+                pats = [p_ for p_ in pats if (Ls, p_) in ASSIGNABLE]
+            if not pats:
+                continue
+            for opname, opcpp, opc in OPS:
+                for alias in (False, True):
+                    if alias and Lo != Ls:
+                        continue        # the parent can only be assigned to a swizzle of its own length
+                    if opname == 'assign' and not alias:
+                        continue        # v.pat = w with an independent w: glm_swzwrite_* above
+                    for ck in range(0, len(pats), 6):        # six patterns per contract (the commutative abstraction of + and * is costly)
+                        name = 'glm_swz%s_%s_%s_vec%d_len%d_%d' % ('alias' if alias else 'op', opname, tag, Ls, Lo, ck // 6)
+                        body, ens = [], []
+                        for j, pat in enumerate(pats[ck:ck + 6]):
+                            body.append('{ %s v = %s; v.%s %s %s; %s }' % (vec_t(Ls, tag), vec_make(Ls, tag, 'a'), pat, opcpp,
+                                                                          'v' if alias else vec_make(Lo, tag, 'w'), vec_store(Ls, 'v', 'out', j * Ls)))
+                            for comp in range(Ls):
+                                ch = L[comp]
+                                if ch in pat:
+                                    src = ('a%d' if alias else 'w%d') % pat.index(ch)
+                                    SP = {'+': 'SPEC_FADD32', '-': 'SPEC_FSUB32', '*': 'SPEC_FMUL32', '/': 'SPEC_FDIV32'}
+                                    want = src if opc is None else '%s(a%d, %s)' % (SP[opc], comp, src)
+                                    ens.append(('%s_%s_%s_gets_old_%s_source_%d' % (pat, opname, ch, 'parent' if alias else 'rhs', pat.index(ch)),
+                                                'a%d != a%d || %s != %s || ' % (comp, comp, src, src) + beq(tag, 'out[%d]' % (j * Ls + comp), want) if opc else
+                                                beq(tag, 'out[%d]' % (j * Ls + comp), want)))
+                                else:
+                                    ens.append(('%s_%s_keeps_%s' % (pat, opname, ch), beq(tag, 'out[%d]' % (j * Ls + comp), 'a%d' % comp)))
+                        d.shim(name, 'void', vec_ins(Ls, tag, 'a') + ([] if alias else vec_ins(Lo, tag, 'w')), ' '.join(body), outs=[(T, 'out', len(pats[ck:ck + 6]) * Ls)])
+                        contracts.append((name, 'glm/detail/_swizzle.hpp  _swizzle_base2::_apply_op: v.%s %s %s ... on vec<%d,%s>' % (pats[ck], opcpp, 'v (aliased)' if alias else 'w', Ls, T),
+                                          dict(ensures=ens, build='swzop_%s_%d' % (tag, Ls), tier='quick',
+                                               **({'uf_float': ('fmul', 'fdiv', 'fadd', 'fsub')} if opc else {}))))
+
 # ---------------------------------------------------------------------------- constructors
 dc = P.driver('c17_ctor', ['<glm/glm.hpp>', '<glm/gtc/quaternion.hpp>'])
 P.build(dc, 'flat', tag='ctor')
